@@ -60,6 +60,22 @@ func vpartLen(tag string) int {
 	return []int{1, 2, 3, 75, 76, 255, 256, 65535, 65536}[k]
 }
 
+// vpartBytes: a data item of l bytes; up to 256 bytes fully symbolic, longer ones with symbolic first
+// and last two bytes around a concrete filler (a decoder that loses the push boundary then walks
+// concrete single-byte opcodes instead of forking on every byte).
+func vpartBytes(tag string, l int) []byte {
+	if l <= 256 {
+		return vnondetBytes(tag, l, l)
+	}
+	b := make([]byte, l)
+	for i := range b {
+		b[i] = Op1
+	}
+	copy(b, vnondetBytes(tag+"-head", 2, 2))
+	copy(b[l-2:], vnondetBytes(tag+"-tail", 2, 2))
+	return b
+}
+
 // C13-P1: EncodeParts / DecodeParts round trip with shortest push forms.
 func VH_C13_Parts() {
 	n := vnondetLen("nparts", 1, vparam("P", 2))
@@ -67,7 +83,7 @@ func VH_C13_Parts() {
 	total := 0
 	for i := 0; i < n; i++ {
 		l := vpartLen("partlen")
-		parts = append(parts, vnondetBytes("part", l, l))
+		parts = append(parts, vpartBytes("part", l))
 		total += refPrefixLen(l) + l
 	}
 	enc, err := EncodeParts(parts)
@@ -142,4 +158,48 @@ func VH_C13_HexJSON() {
 		vassert(vbytesEq(s3, s), "UnmarshalJSON(MarshalJSON()) == s")
 	}
 	vreach("hexjson-done")
+}
+
+// C13-ASM: the assembly rendering of a non-data script built from non-push opcodes and minimal
+// multi-byte pushes converts back to the original bytes. Opcode bytes are symbolic (concretised
+// per value: the two name tables are maps; every value in first position, a small set after it
+// unless ALLOPS=1); push contents are symbolic.
+func VH_C13_ASM() {
+	n := vnondetLen("elems", 1, vparam("E", 2))
+	s := Script{}
+	for i := 0; i < n; i++ {
+		if vnondetBool("is-push") {
+			l := []int{2, 3, 75, 76, 255, 256}[vnondetLen("pushlen", 0, vparam("PL", 3))]
+			d := vnondetBytes("pushdata", l, l)
+			pre, err := PushDataPrefix(d)
+			vassume(err == nil)
+			s = append(s, pre...)
+			s = append(s, d...)
+		} else {
+			var op byte
+			if i == 0 || vparam("ALLOPS", 0) == 1 {
+				op = vnondetU8("op")
+				vassume(op == 0 || op > OpPUSHDATA4) // not a data-push opcode
+				op = byte(vconcU64(uint64(op)))
+			} else {
+				// later opcodes from a small set (every opcode value is covered in first position)
+				op = []byte{OpFALSE, Op1, OpRETURN, OpDUP, OpCHECKSIG, OpINVALIDOPCODE}[vnondetLen("op-small", 0, 5)]
+			}
+			s = append(s, op)
+		}
+	}
+	// not a data script (those are rendered in a different, lossy notation)
+	vassume(!(len(s) > 1 && (s[0] == OpRETURN || (s[0] == OpFALSE && s[1] == OpRETURN))))
+	orig := append(Script{}, s...)
+	asm, err := s.ToASM()
+	vassert(err == nil, "ToASM succeeds")
+	if err != nil {
+		return
+	}
+	s2, err := NewFromASM(asm)
+	vassert(err == nil, "NewFromASM(ToASM()) parses")
+	if err == nil {
+		vassert(vbytesEq(*s2, orig), "NewFromASM(ToASM(s)) == s")
+	}
+	vreach("asm-done")
 }
